@@ -1,5 +1,6 @@
 import GeomV.C02.Gen
 import GeomV.C02.Proofs
+import GeomV.C02.Rounding
 import Mathlib.Tactic.Linarith
 import Mathlib.Tactic.Ring
 import Mathlib.Tactic.FieldSimp
@@ -10,10 +11,15 @@ import Mathlib.Data.Rat.Floor
 namespace GeomV.C02
 open GeomV
 
-/-- what is assumed of float64 rounding -/
-structure Rounding (rnd : Rat → Rat) : Prop where
-  mono : ∀ x y : Rat, x ≤ y → rnd x ≤ rnd y
-  rep : ∀ m : Int, |m| ≤ 2 ^ 53 → rnd ((m : Rat) / 2 ^ 40) = (m : Rat) / 2 ^ 40
+/-! What is assumed of float64 rounding is `Rounding rnd` of `Rounding.lean`: `rnd` is monotone and leaves
+every binary64 value `m · 2^e` (`|m| ≤ 2^53`, `-1074 ≤ e ≤ 970`) unchanged. -/
+
+/-- the doubles `m/2^40`, `|m| ≤ 2^53`, are not changed by rounding (`rep` with `e = -40`) -/
+theorem Rounding.rep40 {rnd : Rat → Rat} (R : Rounding rnd) (m : Int) (h : |m| ≤ 2 ^ 53) :
+    rnd ((m : Rat) / 2 ^ 40) = (m : Rat) / 2 ^ 40 := by
+  have e : (m : Rat) / 2 ^ 40 = (m : Rat) * (2 : Rat) ^ (-40 : Int) := by
+    rw [div_eq_mul_inv, zpow_neg]; rfl
+  rw [e]; exact R.rep m (-40) h (by norm_num) (by norm_num)
 
 /-- `q = k/2` with `|k| ≤ bound` -/
 def halfInt (bound : Nat) (q : Rat) : Bool := (q * 2).den == 1 && decide (|q * 2| ≤ (bound : Rat))
@@ -36,7 +42,7 @@ theorem halfInt_iff {B : Nat} {q : Rat} (h : halfInt B q = true) : ∃ k : Int, 
 /-- L1: a half-integer of magnitude up to 2^12 is not changed by rounding -/
 theorem Rounding.exact_half {rnd : Rat → Rat} (R : Rounding rnd) (k : Int) (hk : |k| ≤ 2 ^ 13) :
     rnd ((k : Rat) / 2) = (k : Rat) / 2 := by
-  have h := R.rep (k * 2 ^ 39) (by
+  have h := R.rep40 (k * 2 ^ 39) (by
     rw [abs_mul, abs_of_pos (by positivity : (0 : Int) < 2 ^ 39)]
     calc |k| * 2 ^ 39 ≤ 2 ^ 13 * 2 ^ 39 := by nlinarith
       _ ≤ 2 ^ 53 := by norm_num)
@@ -105,8 +111,8 @@ theorem Rounding.lt_of_lt {rnd : Rat → Rat} (R : Rounding rnd) (n1 d1 n2 d2 : 
     have : (|m| : Rat) ≤ 2 ^ 52 + 1 := by
       rw [abs_le]; constructor <;> nlinarith
     exact_mod_cast this
-  have e1 := R.rep m (by linarith [hmabs, (by norm_num : (2:Int) ^ 52 + 1 ≤ 2 ^ 53)])
-  have e2 := R.rep (m + 1) (by
+  have e1 := R.rep40 m (by linarith [hmabs, (by norm_num : (2:Int) ^ 52 + 1 ≤ 2 ^ 53)])
+  have e2 := R.rep40 (m + 1) (by
     have : |m + 1| ≤ |m| + 1 := by simpa using abs_add_le m 1
     linarith [hmabs, (by norm_num : (2:Int) ^ 52 + 1 + 1 ≤ 2 ^ 53)])
   calc rnd q1 ≤ rnd ((m : Rat) / 2 ^ 40) := R.mono _ _ r1lo
@@ -202,10 +208,12 @@ theorem ray_body {rnd : Rat → Rat} (R : Rounding rnd) {p a1 b1 : P}
   exact fdivR_ge R (sub_isHalf (onGrid_y hp) (onGrid_y ha)) (sub_isHalf (onGrid_x hp) (onGrid_x ha))
     (sub_isHalf (onGrid_y hb) (onGrid_y ha)) (sub_isHalf (onGrid_x hb) (onGrid_x ha))
 
-/-- **IEEE rounding, `rayIntersectsSegment`**: for every rounding function that is monotone and leaves
-the doubles `m/2^40`, `|m| ≤ 2^53`, unchanged (round-to-nearest-even and every directed IEEE mode are
-such functions), the float computation regenerated from within.go — every `-` and `/` rounded — decides
-exactly as the exact-arithmetic model on points of the half-integer grid `k/2`, `|k| ≤ 2^11`. -/
+/-- **IEEE rounding, `rayIntersectsSegment`** (scale `s = 0`; every dyadic scale `-1000 ≤ s ≤ 900` is
+`C02_float_ray_exact_on_scaled_grid` below): for every `Rounding rnd` — monotone and leaving the doubles
+`m·2^e`, `|m| ≤ 2^53`, `-1074 ≤ e ≤ 970`, unchanged (only `e = -40` is used here); IEEE roundTiesToEven is
+proved to be one in `IEEE.lean` — the float computation regenerated from within.go — every `-` and `/`
+rounded — decides exactly as the exact-arithmetic model on points of the half-integer grid `k/2`,
+`|k| ≤ 2^11`. -/
 theorem C02_float_ray_exact_on_grid {rnd : Rat → Rat} (R : Rounding rnd) (p a b : P)
     (hp : onGrid p = true) (ha : onGrid a = true) (hb : onGrid b = true) :
     GenR.rayIntersectsSegment rnd p a b = rayIntersectsSegment p a b := by
@@ -218,8 +226,9 @@ theorem C02_float_ray_exact_on_grid {rnd : Rat → Rat} (R : Rounding rnd) (p a 
   · simp only [hs, if_false]
     rw [ray_body R hp ha hb]
 
-/-- **IEEE rounding, `pointOnSegment`** (same hypotheses): the rounded slopes are equal exactly when the
-exact slopes are. -/
+/-- **IEEE rounding, `pointOnSegment`** (same hypotheses, scale `s = 0`; every dyadic scale:
+`C02_float_onSegment_exact_on_scaled_grid`): the rounded slopes are equal exactly when the exact slopes
+are. -/
 theorem C02_float_onSegment_exact_on_grid {rnd : Rat → Rat} (R : Rounding rnd) (p l1 l2 : P)
     (hp : onGrid p = true) (h1 : onGrid l1 = true) (h2 : onGrid l2 = true) :
     GenR.pointOnSegment rnd p l1 l2 = pointOnSegment p l1 l2 := by
@@ -408,10 +417,12 @@ theorem polygonalOnGrid_polygons {pg : Polygonal} (h : polygonalOnGrid pg = true
     · exact h.2
     · unfold onGrid; simp only [Bool.and_eq_true]; exact ⟨onGrid_x h.1, onGrid_y h.2⟩
 
-/-- **IEEE rounding, `Point.Within`**: on the half-integer grid (`k/2`, `|k| ≤ 2^11`, point and all
+/-- **IEEE rounding, `Point.Within`** (scale `s = 0`; every dyadic scale `-1000 ≤ s ≤ 900`:
+`C02_float_point_exact_on_scaled_grid`): on the half-integer grid (`k/2`, `|k| ≤ 2^11`, point and all
 vertices) the float computation — control flow of within.go with the two decision functions regenerated
 from the source and every `-` and `/` in them rounded by ANY monotone rounding that fixes the doubles
-`m/2^40` — returns the answer the specification demands, and does not panic. -/
+(`Rounding rnd`; IEEE roundTiesToEven is proved to be one in `IEEE.lean`) — returns the answer the
+specification demands, and does not panic. -/
 theorem C02_float_point_exact_on_grid {rnd : Rat → Rat} (R : Rounding rnd) (pt : P) (pg : Polygonal)
     (hp : onGrid pt = true) (hg : polygonalOnGrid pg = true) :
     pointInPolygonalG (GenR.pointOnSegment rnd) (GenR.rayIntersectsSegment rnd) pt pg
@@ -423,11 +434,197 @@ theorem C02_float_point_exact_on_grid {rnd : Rat → Rat} (R : Rounding rnd) (pt
     (fun a b ha hb => C02_float_ray_exact_on_grid R pt a b hp ha hb)
     pg.polygons (polygonalOnGrid_polygons hg) .outside
 
-/-- non-vacuity: the identity is a rounding; `(1/2, -3)` is on the grid -/
-example : Rounding id := ⟨fun _ _ h => h, fun _ _ => rfl⟩
+/-! ### dyadic scales
+
+The same statements for the grid multiplied by a power of two: coordinates `(k/2)·2^s`, `|k| ≤ 2^11`.
+A difference of two such coordinates is `k·2^(s-1)`, `|k| ≤ 2^12`: a double (`Rounding.rep` with `m = k`,
+`e = s-1`), hence exact; a quotient of two differences does not depend on `s`; the comparisons of input
+coordinates involve no arithmetic. -/
+
+/-- the decidable scaled-grid hypothesis: both coordinates are `(k/2)·2^s` with `|k| ≤ 2^11` -/
+def onGridS (s : Int) (p : P) : Bool := onGrid ⟨p.x / (2 : Rat) ^ s, p.y / (2 : Rat) ^ s⟩
+
+/-- every vertex of every polygon of `pg` is on the scaled grid (for `*Bounds`: `Min` and `Max`) -/
+def polygonalOnGridS (s : Int) : Polygonal → Bool
+  | .polygon p => p.all fun r => r.all (onGridS s)
+  | .multiPolygon ps => ps.all fun p => p.all fun r => r.all (onGridS s)
+  | .bounds mn mx => onGridS s mn && onGridS s mx
+
+theorem onGridS_zero (p : P) : onGridS 0 p = onGrid p := by
+  unfold onGridS; simp
+
+theorem polygonalOnGridS_zero (pg : Polygonal) : polygonalOnGridS 0 pg = polygonalOnGrid pg := by
+  have e : onGridS 0 = onGrid := funext onGridS_zero
+  cases pg <;> simp only [polygonalOnGridS, polygonalOnGrid, e]
+
+theorem onGridS_x {s : Int} {p : P} (h : onGridS s p = true) : halfInt (2 ^ 11) (p.x / (2 : Rat) ^ s) = true :=
+  onGrid_x h
+theorem onGridS_y {s : Int} {p : P} (h : onGridS s p = true) : halfInt (2 ^ 11) (p.y / (2 : Rat) ^ s) = true :=
+  onGrid_y h
+
+/-- what `onGridS` says: the coordinates are `(k/2)·2^s`, `(l/2)·2^s` with `|k|, |l| ≤ 2^11` -/
+theorem onGridS_iff {s : Int} {p : P} (h : onGridS s p = true) :
+    ∃ k l : Int, p.x = (k : Rat) / 2 * (2 : Rat) ^ s ∧ p.y = (l : Rat) / 2 * (2 : Rat) ^ s ∧
+      |k| ≤ 2 ^ 11 ∧ |l| ≤ 2 ^ 11 := by
+  have hc : (2 : Rat) ^ s ≠ 0 := zpow_ne_zero _ (by norm_num)
+  obtain ⟨k, ek, hk⟩ := halfInt_iff (onGridS_x h)
+  obtain ⟨l, el, hl⟩ := halfInt_iff (onGridS_y h)
+  refine ⟨k, l, ?_, ?_, by exact_mod_cast hk, by exact_mod_cast hl⟩
+  · rw [← ek]; field_simp
+  · rw [← el]; field_simp
+
+/-- float division does not see a common positive factor (exact quotient rounded) -/
+theorem fdivR_scale (rnd : Rat → Rat) {c : Rat} (hc : 0 < c) (n d : Rat) :
+    fdivR rnd (c * n) (c * d) = fdivR rnd n d := by
+  unfold fdivR
+  have h0 : c * d = 0 ↔ d = 0 := by
+    constructor
+    · intro h; rcases mul_eq_zero.mp h with h | h
+      · exact absurd h hc.ne'
+      · exact h
+    · rintro rfl; simp
+  have h1 : 0 < c * n ↔ 0 < n := mul_pos_iff_of_pos_left hc
+  have h2 : c * n < 0 ↔ n < 0 := by
+    rw [← neg_pos, ← mul_neg, mul_pos_iff_of_pos_left hc, neg_pos]
+  simp only [h0, h1, h2, mul_div_mul_left _ _ hc.ne']
+
+/-- float division does not see a common positive factor (exact model) -/
+theorem fdiv_scale {c : Rat} (hc : 0 < c) (n d : Rat) : fdiv (c * n) (c * d) = fdiv n d := by
+  unfold fdiv
+  have h0 : c * d = 0 ↔ d = 0 := by
+    constructor
+    · intro h; rcases mul_eq_zero.mp h with h | h
+      · exact absurd h hc.ne'
+      · exact h
+    · rintro rfl; simp
+  have h1 : 0 < c * n ↔ 0 < n := mul_pos_iff_of_pos_left hc
+  have h2 : c * n < 0 ↔ n < 0 := by
+    rw [← neg_pos, ← mul_neg, mul_pos_iff_of_pos_left hc, neg_pos]
+  simp only [h0, h1, h2, mul_div_mul_left _ _ hc.ne']
+
+/-- a difference of two coordinates of the scaled grid is `2^s` times a half-integer `k/2`, `|k| ≤ 2^12`,
+that is `k·2^(s-1)`: a double, not changed by rounding -/
+theorem Rounding.sub_exactS {rnd : Rat → Rat} (R : Rounding rnd) (s : Int) (hs1 : -1000 ≤ s) (hs2 : s ≤ 900)
+    {x y : Rat} (hx : halfInt (2 ^ 11) (x / (2 : Rat) ^ s) = true) (hy : halfInt (2 ^ 11) (y / (2 : Rat) ^ s) = true) :
+    ∃ h : Rat, IsHalf h ∧ x - y = (2 : Rat) ^ s * h ∧ rnd (x - y) = x - y := by
+  have hc : (2 : Rat) ^ s ≠ 0 := zpow_ne_zero _ (by norm_num)
+  obtain ⟨k, e, hk⟩ := sub_isHalf hx hy
+  have e2 : x - y = (2 : Rat) ^ s * ((k : Rat) / 2) := by rw [← e]; field_simp
+  refine ⟨(k : Rat) / 2, ⟨k, rfl, hk⟩, e2, ?_⟩
+  have e3 : (2 : Rat) ^ s * ((k : Rat) / 2) = (k : Rat) * (2 : Rat) ^ (s - 1) := by
+    rw [zpow_sub_one₀ (by norm_num : (2 : Rat) ≠ 0)]; ring
+  rw [e2, e3]
+  exact R.rep k (s - 1) (le_trans hk (by norm_num)) (by linarith) (by linarith)
+
+/-- the body of `rayIntersectsSegment` after the swap, scaled grid -/
+theorem ray_bodyS {rnd : Rat → Rat} (R : Rounding rnd) (s : Int) (hs1 : -1000 ≤ s) (hs2 : s ≤ 900) {p a1 b1 : P}
+    (hp : onGridS s p = true) (ha : onGridS s a1 = true) (hb : onGridS s b1 = true) :
+    FQ.ge (fdivR rnd (rnd (p.y - a1.y)) (rnd (p.x - a1.x))) (fdivR rnd (rnd (b1.y - a1.y)) (rnd (b1.x - a1.x)))
+    = FQ.ge (fdiv (p.y - a1.y) (p.x - a1.x)) (fdiv (b1.y - a1.y) (b1.x - a1.x)) := by
+  have hc : (0 : Rat) < (2 : Rat) ^ s := zpow_pos (by norm_num) _
+  obtain ⟨h1, i1, e1, r1⟩ := R.sub_exactS s hs1 hs2 (onGridS_y hp) (onGridS_y ha)
+  obtain ⟨h2, i2, e2, r2⟩ := R.sub_exactS s hs1 hs2 (onGridS_x hp) (onGridS_x ha)
+  obtain ⟨h3, i3, e3, r3⟩ := R.sub_exactS s hs1 hs2 (onGridS_y hb) (onGridS_y ha)
+  obtain ⟨h4, i4, e4, r4⟩ := R.sub_exactS s hs1 hs2 (onGridS_x hb) (onGridS_x ha)
+  rw [r1, r2, r3, r4, e1, e2, e3, e4, fdivR_scale rnd hc, fdivR_scale rnd hc, fdiv_scale hc, fdiv_scale hc]
+  exact fdivR_ge R i1 i2 i3 i4
+
+/-- **IEEE rounding, `rayIntersectsSegment`, every dyadic scale**: for every rounding function that is
+monotone and leaves the doubles `m·2^e` (`|m| ≤ 2^53`, `-1074 ≤ e ≤ 970`) unchanged — IEEE roundTiesToEven
+is PROVED to be one in `IEEE.lean`, every directed mode is one too — the float computation regenerated from
+within.go, every `-` and `/` rounded, decides exactly as the exact-arithmetic model on points of the
+half-integer grid times `2^s`: coordinates `(k/2)·2^s`, `|k| ≤ 2^11`, for every `-1000 ≤ s ≤ 900`. -/
+theorem C02_float_ray_exact_on_scaled_grid {rnd : Rat → Rat} (R : Rounding rnd) (s : Int)
+    (hs1 : -1000 ≤ s) (hs2 : s ≤ 900) (p a b : P)
+    (hp : onGridS s p = true) (ha : onGridS s a = true) (hb : onGridS s b = true) :
+    GenR.rayIntersectsSegment rnd p a b = rayIntersectsSegment p a b := by
+  have tie : rayIntersectsSegment p a b = Gen.rayIntersectsSegment p a b := rfl
+  rw [tie]
+  unfold GenR.rayIntersectsSegment Gen.rayIntersectsSegment
+  by_cases hs : a.y > b.y
+  · simp only [hs, if_true]
+    rw [ray_bodyS R s hs1 hs2 hp hb ha]
+  · simp only [hs, if_false]
+    rw [ray_bodyS R s hs1 hs2 hp ha hb]
+
+/-- **IEEE rounding, `pointOnSegment`, every dyadic scale** (same hypotheses: half-integer grid times
+`2^s`, `-1000 ≤ s ≤ 900`, any monotone rounding that fixes the doubles): the rounded slopes are equal
+exactly when the exact slopes are, and the `d1.x == 0 && d2.x == 0` test sees the exact differences. -/
+theorem C02_float_onSegment_exact_on_scaled_grid {rnd : Rat → Rat} (R : Rounding rnd) (s : Int)
+    (hs1 : -1000 ≤ s) (hs2 : s ≤ 900) (p l1 l2 : P)
+    (hp : onGridS s p = true) (h1 : onGridS s l1 = true) (h2 : onGridS s l2 = true) :
+    GenR.pointOnSegment rnd p l1 l2 = pointOnSegment p l1 l2 := by
+  have tie : pointOnSegment p l1 l2 = Gen.pointOnSegment p l1 l2 := rfl
+  rw [tie]
+  unfold GenR.pointOnSegment Gen.pointOnSegment GenR.pointSubtract Gen.pointSubtract
+  simp only
+  have hc : (0 : Rat) < (2 : Rat) ^ s := zpow_pos (by norm_num) _
+  obtain ⟨k1, i1, e1, r1⟩ := R.sub_exactS s hs1 hs2 (onGridS_x h1) (onGridS_x hp)
+  obtain ⟨k2, i2, e2, r2⟩ := R.sub_exactS s hs1 hs2 (onGridS_y h1) (onGridS_y hp)
+  obtain ⟨k3, i3, e3, r3⟩ := R.sub_exactS s hs1 hs2 (onGridS_x h2) (onGridS_x h1)
+  obtain ⟨k4, i4, e4, r4⟩ := R.sub_exactS s hs1 hs2 (onGridS_y h2) (onGridS_y h1)
+  rw [r1, r2, r3, r4, e1, e2, e3, e4, fdivR_scale rnd hc, fdivR_scale rnd hc, fdiv_scale hc, fdiv_scale hc,
+    fdivR_eq R i2 i1 i4 i3]
+
+theorem polygonalOnGridS_polygons {s : Int} {pg : Polygonal} (h : polygonalOnGridS s pg = true) :
+    ∀ q ∈ pg.polygons, ∀ r ∈ q, ∀ v ∈ r, onGridS s v = true := by
+  cases pg with
+  | polygon p =>
+    intro q hq r hr v hv
+    simp only [Polygonal.polygons, List.mem_singleton] at hq; subst hq
+    simp only [polygonalOnGridS, List.all_eq_true] at h
+    exact h r hr v hv
+  | multiPolygon ps =>
+    intro q hq r hr v hv
+    simp only [polygonalOnGridS, List.all_eq_true] at h
+    exact h q hq r hr v hv
+  | bounds mn mx =>
+    intro q hq r hr v hv
+    simp only [polygonalOnGridS, Bool.and_eq_true] at h
+    simp only [Polygonal.polygons, List.mem_singleton] at hq; subst hq
+    simp only [List.mem_singleton] at hr; subst hr
+    simp only [List.mem_cons, List.not_mem_nil, or_false] at hv
+    rcases hv with rfl | rfl | rfl | rfl
+    · exact h.1
+    · unfold onGridS onGrid; simp only [Bool.and_eq_true]; exact ⟨onGridS_x h.2, onGridS_y h.1⟩
+    · exact h.2
+    · unfold onGridS onGrid; simp only [Bool.and_eq_true]; exact ⟨onGridS_x h.1, onGridS_y h.2⟩
+
+/-- **IEEE rounding, `Point.Within`, every dyadic scale**: on the half-integer grid times `2^s`
+(coordinates `(k/2)·2^s`, `|k| ≤ 2^11`, point and all vertices; any `-1000 ≤ s ≤ 900`) the float
+computation — control flow of within.go with the two decision functions regenerated from the source and
+every `-` and `/` in them rounded by ANY monotone rounding that fixes the doubles `m·2^e` (`|m| ≤ 2^53`,
+`-1074 ≤ e ≤ 970`; IEEE roundTiesToEven is proved to be one in `IEEE.lean`) — returns the answer the
+specification demands, and does not panic. -/
+theorem C02_float_point_exact_on_scaled_grid {rnd : Rat → Rat} (R : Rounding rnd) (s : Int)
+    (hs1 : -1000 ≤ s) (hs2 : s ≤ 900) (pt : P) (pg : Polygonal)
+    (hp : onGridS s pt = true) (hg : polygonalOnGridS s pg = true) :
+    pointInPolygonalG (GenR.pointOnSegment rnd) (GenR.rayIntersectsSegment rnd) pt pg
+      = .ok (ofVerdict (Spec.withinSpec pt pg.polygons)) := by
+  rw [← C02_point, ← pointInPolygonalG_model]
+  unfold pointInPolygonalG
+  exact pointInPolygonalG_congr (fun v => onGridS s v = true) _ _ _ _ pt
+    (fun a b ha hb => C02_float_onSegment_exact_on_scaled_grid R s hs1 hs2 pt a b hp ha hb)
+    (fun a b ha hb => C02_float_ray_exact_on_scaled_grid R s hs1 hs2 pt a b hp ha hb)
+    pg.polygons (polygonalOnGridS_polygons hg) .outside
+
+/-- non-vacuity: `(1/2, -3)` is on the grid (the identity is a rounding: `Rounding.lean`; so is IEEE
+roundTiesToEven: `IEEE.lean`) -/
 example : onGrid ⟨1/2, -3⟩ = true := by decide +kernel
 example : onGrid ⟨1/4, 0⟩ = false := by decide +kernel
 example : onGrid ⟨1025, 0⟩ = false := by decide +kernel
 example : polygonalOnGrid (.polygon [[⟨0, 0⟩, ⟨1, 1⟩, ⟨0, 1/2⟩]]) = true := by decide +kernel
+/-- non-vacuity of the scaled grid: large and small scales, off-grid points are rejected -/
+example : onGridS 100 ⟨3/2 * 2^100, 0⟩ = true := by decide +kernel
+example : onGridS 900 ⟨-2^910, 2^899⟩ = true := by decide +kernel
+example : onGridS 900 ⟨2^898, 0⟩ = false := by decide +kernel
+example : onGridS 900 ⟨2^911, 0⟩ = false := by decide +kernel
+example : onGridS (-30) ⟨1, 0⟩ = false := by decide +kernel
+example : onGridS (-30) ⟨3/2^31, -5/2^30⟩ = true := by decide +kernel
+example : onGridS (-1000) ⟨1/2^1001, -2^10/2^1000⟩ = true := by decide +kernel
+example : onGridS (-30) ⟨1/2^32, 0⟩ = false := by decide +kernel
+example : polygonalOnGridS 7 (.polygon [[⟨0, 0⟩, ⟨128, 128⟩, ⟨0, 64⟩]]) = true := by decide +kernel
+example : polygonalOnGridS 7 (.polygon [[⟨0, 0⟩, ⟨128, 128⟩, ⟨0, 32⟩]]) = false := by decide +kernel
+example : polygonalOnGridS (-3) (.bounds ⟨-1/16, 0⟩ ⟨5/8, 3/16⟩) = true := by decide +kernel
 
 end GeomV.C02
